@@ -847,13 +847,14 @@ class Node:
     """value provenance node.
     kind: const | arg | local | call | field | deref | ref | agg | bin | un | discr | cast | phi |
           index | variant | unknown"""
-    __slots__ = ("kind", "a", "kids", "at")
+    __slots__ = ("kind", "a", "kids", "at", "owner")
 
-    def __init__(self, kind, a=None, kids=(), at=None):
+    def __init__(self, kind, a=None, kids=(), at=None, owner=None):
         self.kind = kind
         self.a = a
         self.kids = list(kids)
         self.at = at
+        self.owner = owner
 
     def walk(self):
         yield self
@@ -991,7 +992,7 @@ class Origins:
             if "callee" not in t:
                 kids = [self.operand(t["callee_dyn"], depth, stack)] + kids
                 name = "?dyn"
-            n = Node("call", name, kids, at)
+            n = Node("call", name, kids, at, self.b)
             return n
         rv = payload
         return self.rvalue(rv, depth, stack, at)
@@ -1094,4 +1095,20 @@ def self_type_of(callee):
     m = re.match(r"^<(.+) as (.+?)>::(\w+)$", c)
     if m:
         return m.group(1)
+    return None
+
+
+def chain_to(node, pred):
+    """names of the calls (and unary/binary operators) on the path from the first sub-node that
+    satisfies `pred` up to the root, leaf-first; None when no sub-node satisfies pred"""
+    if pred(node):
+        return []
+    for k in node.kids:
+        c = chain_to(k, pred)
+        if c is not None:
+            if node.kind == "call":
+                return c + [method_name(node.a)]
+            if node.kind in ("un", "bin"):
+                return c + [node.kind + ":" + str(node.a)]
+            return c
     return None
